@@ -187,6 +187,8 @@ func c14Text(c *core.Ctx) {
 			[]string{"ref\tsrc\tgene\t1\t24\t.\t+\t.\tID=gene1;Name=g1", "ref\tsrc\tCDS\t1\t6\t.\t+\t0\tID=c1;Name=g1;Parent=gene1", "ref\tsrc\tCDS\t10\t15\t.\t+\t0\tID=c1;Name=g1;Parent=gene1"}},
 		{"attribute values containing spaces", []gbFeature{{"CDS", "1..9", "g1", 1}, {"CDS", "13..21", "env protein", 1}},
 			[]string{"ref\tsrc\tCDS\t1\t9\t.\t+\t0\tID=c1;Note=spike glycoprotein, surface;Name=g1", "ref\tsrc\tCDS\t13\t21\t.\t+\t0\tID=c2;Name=env protein"}},
+		{"gene names with '+', '_' and '.'", []gbFeature{{"CDS", "1..9", "NS1+2", 1}, {"CDS", "13..21", "orf_7.a", 1}},
+			[]string{"ref\tsrc\tCDS\t1\t9\t.\t+\t0\tID=c1;Name=NS1+2", "ref\tsrc\tCDS\t13\t21\t.\t+\t0\tID=c2;Name=orf_7.a"}},
 		{"complement(join) 6+6", []gbFeature{{"CDS", "complement(join(4..9,16..21))", "g1", 1}},
 			[]string{"ref\tsrc\tCDS\t4\t9\t.\t-\t0\tID=c1;Name=g1", "ref\tsrc\tCDS\t16\t21\t.\t-\t0\tID=c1;Name=g1"}},
 	}
